@@ -109,7 +109,9 @@ void h_handleMidi(void)
 #elif defined(CASE_NRPN_INCOMPLETE)
     V_ASSUME(ctl.kind == LQ_CTL_NONE);
 #endif
-    V_COVER(any_bound);
+    V_COVER(ctl.kind == LQ_CTL_CC && any_bound);
+    V_COVER(ctl.kind == LQ_CTL_NRPN && any_bound);
+    V_COVER(ctl.kind == LQ_CTL_NRPN && !any_bound && q0.len >= 1);
     V_COVER(!any_bound && ctl.kind != LQ_CTL_NONE && q0.len >= 2 && q0.q[0] > q0.q[1]);
     V_COVER(!any_bound && ctl.kind != LQ_CTL_NONE && q0.len == 0);
     V_COVER(ctl.kind == LQ_CTL_NONE && q0.len >= 1);
